@@ -110,6 +110,9 @@ func genScenario(r *Rng, maxMsgs, maxRcpts int) *SmtpScenario {
 		}
 		sc.Msgs = append(sc.Msgs, m)
 	}
+	if r.Chance(50) {
+		sc.Variant = r.U64() | 1
+	}
 	return sc
 }
 
